@@ -62,6 +62,45 @@ def run(samples, **opts):
     return render(reg, o), reg
 
 
+def _ptrs(t, acc):
+    from json_to_models.dynamic_typing import BaseType, ModelPtr
+    if isinstance(t, dict):
+        for v in t.values():
+            _ptrs(v, acc)
+    elif isinstance(t, ModelPtr):
+        acc.append(t)
+    elif isinstance(t, BaseType):
+        for x in t:
+            _ptrs(x, acc)
+    return acc
+
+
+def referrers(reg):
+    """model index -> set of indices of the models whose fields reference it (live references only)"""
+    ref = {m.index: set() for m in reg.models}
+    for m in reg.models:
+        for p in _ptrs(m.type, []):
+            ref.setdefault(p.type.index, set()).add(m.index)
+    return ref
+
+
+def tree_shaped(reg):
+    """every model is referenced from at most one class, never from itself, and exactly the unreferenced models are roots"""
+    ref = referrers(reg)
+    for i, rs in ref.items():
+        if len(rs) > 1 or i in rs:
+            return False
+    # no cycles: walk up from every model
+    for i in ref:
+        seen, cur = set(), i
+        while ref.get(cur):
+            if cur in seen:
+                return False
+            seen.add(cur)
+            (cur,) = ref[cur]
+    return True
+
+
 _n = [0]
 
 
@@ -83,15 +122,19 @@ def load(code, name=None):
 
 
 def _update_refs(cls, ns, seen=None):
+    """resolve forward references with the class scope chain: module globals, enclosing classes' nested classes, own nested"""
     seen = seen if seen is not None else set()
     if cls in seen:
         return
     seen.add(cls)
     local = dict(ns)
-    # nested classes: names resolve through the enclosing classes
+    local[cls.__name__] = cls
     for v in list(vars(cls).values()):
         if isinstance(v, type) and v.__module__ == cls.__module__:
-            _update_refs(v, dict(ns, **{cls.__name__: cls}), seen)
+            local[v.__name__] = v
+    for v in list(vars(cls).values()):
+        if isinstance(v, type) and v.__module__ == cls.__module__:
+            _update_refs(v, local, seen)
     if hasattr(cls, "update_forward_refs"):
         cls.update_forward_refs(**local)
 
